@@ -62,7 +62,7 @@ def conv_case(rnd, cls, with_q=True):
   pad_choices = ["valid", "same"] + (["causal"] if cls in ("QConv1D", "QSeparableConv1D") else [])
   pad = rnd.choice(pad_choices)
   s = rnd.choice([1, 1, 2])
-  d = rnd.choice([1, 2]) if s == 1 and cls in ("QConv1D", "QConv2D") else 1
+  d = rnd.choice([1, 2]) if s == 1 else 1          # (every convolution class takes a dilation rate)
   kh, kw_ = (1, rnd.choice([1, 2, 3])) if one_d else (rnd.choice([1, 2]), rnd.choice([1, 2, 3]))
   h, w = (1, rnd.choice([4, 5, 6])) if one_d else (rnd.choice([3, 4]), rnd.choice([3, 4, 5]))
   if pad == "valid":      # the dilated kernel must fit
@@ -83,8 +83,8 @@ def conv_case(rnd, cls, with_q=True):
     common["data_format"] = "channels_first"
   to_cf = (lambda a: np.moveaxis(np.asarray(a), -1, 1)) if cf else (lambda a: np.asarray(a))
   to_cl = (lambda a: np.moveaxis(np.asarray(a), 1, -1)) if cf else (lambda a: np.asarray(a))
+  common["dilation_rate"] = d if one_d else (d, d)
   if cls in ("QConv1D", "QConv2D"):
-    common["dilation_rate"] = d if one_d else (d, d)
     if groups > 1:
       common["groups"] = groups
   if cls in ("QConv1D", "QConv2D"):
